@@ -49,14 +49,20 @@ static uintptr_t slot_base(int i)
 }
 
 static sandbox_t sbA, sbB;
+#ifdef PTR_SINGLE
+static sandbox_t& sb(uintptr_t) { return sbA; }
+#else
 static sandbox_t& sb(uintptr_t addr) { return (addr >= slot_base(1) && addr < slot_base(2)) ? sbB : sbA; }
+#endif
 
 static void setup()
 {
   Sbx::fixed_base_hint = slot_base(0);
   sbA.create_sandbox();
+#ifndef PTR_SINGLE      // PTR_SINGLE: exactly one sandbox of this type is alive (slot 1 stays unmapped, unowned memory)
   Sbx::fixed_base_hint = slot_base(1);
   sbB.create_sandbox();
+#endif
   void* m = mmap(reinterpret_cast<void*>(APP_BASE), APP_SIZE, PROT_READ | PROT_WRITE,
                  MAP_PRIVATE | MAP_ANONYMOUS | MAP_FIXED_NOREPLACE, -1, 0);
   if (m == MAP_FAILED) std::abort();
